@@ -94,6 +94,14 @@ type hxSrv struct {
 	blockedRead  bool // client read with nothing queued and no stall configured
 	tlsActive    bool
 	phase        string
+	clear         [][]byte // chunks written below the TLS layer (cleartext tap)
+	encBytes      int
+	viaTLS        bool
+	certName      string
+	certTrusted   bool
+	tlsGarbage    bool
+	starttlsReply int
+	authChallenges int
 	probe        func() bool // C13: is the send lock held? (nil: not checked)
 	armChecks    int
 	expectTimeout time.Duration
@@ -352,6 +360,17 @@ func (s *hxSrv) respond(line []byte) {
 		if code[0] == '2' {
 			s.dropped = true // the server closes after 221 (queued reply is still delivered)
 		}
+	case "STARTTLS":
+		switch s.starttlsReply {
+		case 0:
+			s.send(c, [3]byte{'2', '2', '0'}, true, nil)
+		case 1:
+			s.send(c, [3]byte{'4', '5', '4'}, false, nil)
+		case 2:
+			s.send(c, [3]byte{'5', '0', '1'}, false, nil)
+		default:
+			s.out = append(s.out, "this is not an SMTP reply\r\n"...)
+		}
 	case "AUTH":
 		if s.authFn != nil {
 			s.authFn(s, string(line))
@@ -563,6 +582,7 @@ func (c *hxConn) Write(p []byte) (int, error) {
 	if s.probe != nil {
 		svAssert(s.probe(), "C13 write to the shared connection without the send lock")
 	}
+	s.clear = append(s.clear, append([]byte{}, p...))
 	s.feed(p)
 	return len(p), nil
 }
